@@ -586,6 +586,8 @@ class MergeDup(Oracle):
 
     def judge(self, line, out):
         if crashed(out):
+            if "rb_sort_clb" in getattr(self, "last_err", "") and "realtype" in self.last_err:
+                return ("dupctx-union-sort", "assertion val1->realtype == val2->realtype in rb_sort_clb after lyd_dup_siblings_to_ctx")
             return (None, "crash: " + out)
         r = results(out)
         if r[1] != "0" or rc(r[2]) != 0 or rc(r[3]) != 0:
@@ -595,6 +597,8 @@ class MergeDup(Oracle):
         if r[7] != r[4]:
             return (None, "non-destructive merge modified its source")
         if r[8] != "ok":
+            if "not sorted" in r[8]:
+                return ("merge-dup-unsorted", "merged tree breaks an invariant: " + r[8])
             return (None, "merged tree breaks an invariant: " + r[8])
         if r[12] != "0" or r[13] != r[14]:
             return (None, "destructive and non-destructive merge differ")
@@ -620,3 +624,140 @@ class MergeDup(Oracle):
         if r[39] == "0" and (r[40] != "0" or r[41] != r[27] or rc(r[43]) != 0):
             return (None, "duplicate into another context differs: %s" % r[40])
         return None
+
+
+# ------------------------------------------------------------------------------------------------
+# C07: validation is an idempotent normalisation with an exact change set; with-defaults modes
+# ------------------------------------------------------------------------------------------------
+def count_terms(xmlbytes):
+    """number of elements without element children in a printed XML document (terms + empty inner nodes)"""
+    try:
+        t = xml_tree(xmlbytes)
+    except xml.parsers.expat.ExpatError:
+        return -1
+
+    def rec(ns):
+        return sum(1 if not n[4] else rec(n[4]) for n in ns)
+    return rec(t)
+
+
+class ValidateIdem(Oracle):
+    """C07: validate(validate(T)) = validate(T) with an empty change set; the change set applied to the tree before gives
+    the tree after; default-flagged terms hold the schema default; with-defaults modes print exactly the RFC 6243 node
+    sets (computed from the tree's flags); histories edit -> validate -> edit -> validate."""
+    name = "validate-idem"
+
+    def gen(self, rng, tier, scale=1.0):
+        L = []
+        for i in range(self.n(tier, 150, 6000, scale)):
+            m, ig = gen_case(rng, meta_prob=0.0, userord=(i % 2 == 0), state=(i % 3 == 0))
+            f = ig.forest(m, config_only=False)
+            s = Script()
+            s.ctx()
+            s.mod(m.yang())
+            s.parse(0, "x", yanggen.to_xml(f), popts=PARSE_STRICT | PARSE_ONLY, vopts=0)    # 2
+            nrounds = 3
+            for rnd in range(nrounds):
+                s.add("dup", "t0", "t1", DUPF)                     # +0
+                s.add("val", "t0", "c0", VAL_PRESENT, "t2")        # +1
+                s.dump(0, 8 | 1)                                   # +2  (with NEW flag + is-default marks)
+                s.add("dup", "t0", "t4", DUPF)
+                s.add("val", "t0", "c0", VAL_PRESENT, "t3")        # +4
+                s.dump(0, 8 | 1)                                   # +5
+                s.dump(3)                                          # +6 empty
+                s.add("apply", "t1", "t2")                         # +7
+                s.add("cmp", "t1", "t0", CMPX)                     # +8
+                s.dump(1); s.dump(0)                               # +9 +10
+                s.add("inv", "t0")                                 # +11
+                for mode in (WD_EXPLICIT, WD_TRIM, WD_ALL):
+                    s.print(0, "x", PRINT_SIBLINGS | PRINT_SHRINK | PRINT_KEEPEMPTY | mode)      # +12..14
+                # edits for the next round
+                for _ in range(rng.randrange(1, 4)):
+                    r = rng.random()
+                    if r < 0.5:
+                        s.add("freen", "t0#%d" % rng.randrange(0, 25))
+                    elif r < 0.8:
+                        s.add("chg", "t0#%d" % rng.randrange(0, 25), hexs(rng.choice(["1", "true", "zero", "a", "10", "b1"])))
+                    else:
+                        s.add("newpath", "t0", "c0", NEWPATH_UPDATE, hexs("/m1:" + rng.choice(m.nodes).name), "~")
+            L.append(s.line())
+            di = schema_has(m, lambda n: (n.kind == "list" and not n.keys) or (n.kind == "leaf-list" and not n.config))
+            ue = schema_has(m, lambda n: n.kind == "leaf-list" and (n.userord or not n.config) and "" in n.defaults) or \
+                any(n.schema.kind == "leaf-list" and (n.schema.userord or not n.schema.config) and n.value == ""
+                    for n, _, _ in yanggen.walk(f))
+            self.info[L[-1]] = (di, ue)
+        return L
+
+    def __init__(self):
+        self.info = {}
+
+    def judge(self, line, out):
+        di, ue = self.info.get(line, (False, False))
+        if crashed(out):
+            if di and "lyd_diff_merge_r" in getattr(self, "last_err", ""):
+                return ("vdiff-dupinst", "assertion in lyd_diff_merge_r while building the validation diff of a key-less list")
+            return (None, "crash: " + out)
+        r = results(out)
+        if r[1] != "0" or rc(r[2]) != 0:
+            return None
+        cmds = line.split("\t")[1:]
+        k = 3
+        rnd = 0
+        while k + 14 < len(r):
+            if not cmds[k].startswith("dup t0 t1"):
+                k += 1          # an edit command between rounds
+                continue
+            rnd += 1
+            if rc(r[k + 1]) != 0:
+                return None     # the (edited) tree is invalid: end of this history
+            d1, d2 = r[k + 2], r[k + 5]
+            if rc(r[k + 4]) != 0 or d1 != d2:
+                return (None, "second validation changed the tree (round %d)" % rnd)
+            if r[k + 6] != "empty":
+                return (None, "second validation reports a non-empty change set (round %d)" % rnd)
+            if ":n" in d1.replace(":=", "") and any(seg.split(":")[-1].find("n") >= 0 for seg in d1.split(";") if seg):
+                # any node still flagged new?
+                for seg in d1.split(";"):
+                    fl = seg.rsplit(":", 1)[-1] if seg else ""
+                    if "n" in fl and "=" not in fl:
+                        return (None, "a node keeps the NEW flag after validation: " + seg)
+            if not r[k + 7].startswith("0") or r[k + 8] != "0" or r[k + 9] != r[k + 10]:
+                t = "vdiff-np-container" if self.only_np_diff(r[k + 9], r[k + 10]) else ("vdiff-dupinst" if di else None)
+                if t is None and ue and sorted(r[k + 9].split(";")) == sorted(r[k + 10].split(";")):
+                    t = "uord-empty-anchor"
+                return (t, "validation diff applied to the tree before does not give the tree after (round %d): apply=%s cmp=%s"
+                        % (rnd, r[k + 7], r[k + 8]))
+            if r[k + 11] != "ok":
+                return (None, "validated tree breaks an invariant: " + r[k + 11])
+            # default flag soundness and with-defaults node sets, from the flags in the dump
+            nall = ntrim = nexpl = 0
+            for seg in d1.split(";"):
+                if not seg:
+                    continue
+                parts = seg.split(":")
+                fl = parts[4] if len(parts) > 4 else ""
+                is_term = parts[3].startswith("=") if len(parts) > 3 else False
+                if is_term:
+                    if "d" in fl and "D" not in fl:
+                        return (None, "default-flagged node does not hold the schema default: " + seg)
+                    nall += 1
+                    if "D" not in fl:
+                        ntrim += 1
+                    if "d" not in fl or "s" in fl:
+                        nexpl += 1
+            for mode, exp, res in (("explicit", nexpl, r[k + 12]), ("trim", ntrim, r[k + 13]), ("report-all", nall, r[k + 14])):
+                if rc(res) != 0:
+                    return (None, "print failed in mode " + mode)
+                got = count_terms(payload(res))
+                # inner nodes without children are counted by count_terms too: compare lower bound and exactness for ALL
+                if got < exp:
+                    t = "wd-leaflist-partial-default" if mode == "trim" else None
+                    return (t, "with-defaults mode %s printed %d leaves, RFC 6243 selects %d" % (mode, got, exp))
+            k += 15
+        return None
+
+    @staticmethod
+    def only_np_diff(a, b):
+        sa = [x for x in a.split(";") if ":i:" not in x]
+        sb = [x for x in b.split(";") if ":i:" not in x]
+        return sa == sb
